@@ -9,6 +9,8 @@
  *     poly    <text>;<grid>          mpt_iterator_poly(text, &grid)      grid = n | b,b,b...
  *     profile <text>;<grid>          mpt_iterator_profile(&grid, text)
  *     buffer  <bytes> / args <bytes> mpt_meta_buffer / mpt_meta_arguments over a 'c' array
+ *     from    <lin|range|fac>;<string|values>;<text>   _mpt_iterator_linear/_range/_factor with an iterator value
+ *                                    (second token U:<next value of the source>)
  *     vlin    <points>,<ld>,<min>,<max>       mpt_values_linear on an exact-size heap block
  *     vbound  <points>,<ld>,<l>,<c>,<r>       mpt_values_bound
  *   <oracle> is the libc table for the model (ignored here).
@@ -184,6 +186,33 @@ static void run_case(int ntok, char **tok)
 			free(b);
 		}
 	}
+	else if (!strcmp(kind, "from")) {
+		/* from <ctor>;<srckind>;<text>: constructor fed from another iterator (TypeIteratorPtr value) */
+		char *ctor = strtok(arg, ";"), *sk = strtok(0, ";"), *txt = strtok(0, ";");
+		MPT_INTERFACE(metatype) *smt;
+		MPT_INTERFACE(iterator) *sit = 0;
+		MPT_STRUCT(value) val;
+		char *text = text_of(txt);
+		smt = sk[0] == 's' ? mpt_iterator_string(text, 0) : mpt_iterator_values(text);
+		if (!smt) { vh_tok("X"); return; }
+		if (sk[0] == 's') strkind = 1;
+		MPT_metatype_convert(smt, MPT_ENUM(TypeIteratorPtr), &sit);
+		MPT_value_set(&val, MPT_ENUM(TypeIteratorPtr), &sit);
+		if (ctor[0] == 'l') mt = _mpt_iterator_linear(&val);
+		else if (ctor[0] == 'r') mt = _mpt_iterator_range(&val);
+		else mt = _mpt_iterator_factor(&val);
+		set_slot(0, mt);
+		vh_tok(mt ? "C:1" : "C:0");
+		/* what the source serves next */
+		vh_tok("U"); vh_add(":"); 
+		{
+			const MPT_STRUCT(value) *sv; double d; int r = read_value(sit, &d, &sv);
+			if (!sv) vh_add("N"); else if (r < 0) vh_add("E%d", r); else put_double(d);
+		}
+		strkind = 0;
+		smt->_vptr->unref(smt);
+		goto ops;
+	}
 	else if (!strcmp(kind, "vlin") || !strcmp(kind, "vbound")) {
 		char *p = strtok(arg, ","); long points = strtol(p, 0, 0), ld, i, n;
 		double a[3], *target; int na = kind[1] == 'l' ? 2 : 3;
@@ -205,6 +234,7 @@ static void run_case(int ntok, char **tok)
 	else { vh_tok("X"); return; }
 	set_slot(0, mt);
 	vh_tok(mt ? (slot[0].it ? "C:1" : "C:noiter") : "C:0");
+ops:
 	for (t = 4; t < ntok; t++) {
 		char op = tok[t][0];
 		int s = (op >= 'A' && op <= 'Z') ? 1 : 0;
